@@ -1,5 +1,5 @@
 """C02 - results equal the pandas meaning of the query for every partitioning."""
-from .. import pfam, prun
+from .. import pfam, prun, kcollect
 from ..common import seed
 
 ASSUMPTIONS = [
@@ -8,6 +8,7 @@ ASSUMPTIONS = [
     "every cut of n rows into partitions (all 2^(n-1) compositions, n = 4 quick / 5 thorough) plus empty partitions, known (symbolic index labels inside declared divisions, "
     "sorted inside a partition) and unknown divisions, independent layouts for the two inputs of binary operations",
     "explicit refusals (NotImplementedError / ValueError) are accepted; any other exception where pandas computes a value is a violation",
+    "K: the 'already sorted' decision of sort_values / set_index (_calculate_divisions) under CrossHair with the computed minima / maxima as symbolic environment values",
     "outside: groupby-apply/transform UDFs, rolling, merge_asof, resample, quantile-based sort/set_index (data-dependent planning), strings/categoricals/datetimes, float rounding",
 ]
 
@@ -17,5 +18,8 @@ def run(tier, only=None):
 
     progs = f02.programs(tier)
     results, info = pfam.run(progs, prun.check_reference, only)
+    krs, kinfo = kcollect.run("C02", tier, only, modules=["k_setindex"])
+    results = krs + results
+    info.update(kinfo)
     info["rule"] = "one obligation per (query, layout): z3 decides optimised-plan result == unpartitioned reference for all table contents (and index labels); non-trivial = decided by the solver"
     return "translation_validation", results, info, ASSUMPTIONS
